@@ -6,5 +6,6 @@ import LC.Props.C01Range
 #print axioms LC.V2Match.score_exact_conf
 #print axioms LC.V2Match.retain_length
 #print axioms LC.V2Match.retain_single
+#print axioms LC.V2Match.retain_not_dominated
 #print axioms LC.V2Match.retain_unconflicted
 #print axioms LC.V2Match.exact_range_proposed
